@@ -132,6 +132,16 @@ func vReadEndpoints(s *Server) []vEndpoint {
 			err := cfg.Get(&structs.ConfigEntryQuery{Datacenter: dc, Kind: structs.ServiceDefaults, Name: "web", QueryOptions: qo}, &r)
 			return r.Entry, r.Index, err
 		}},
+		{"session-get", func(qo structs.QueryOptions) (any, uint64, error) {
+			var r structs.IndexedSessions
+			err := sess.Get(&structs.SessionSpecificRequest{Datacenter: dc, SessionID: "a0000000-0000-0000-0000-000000000001", QueryOptions: qo}, &r)
+			return r.Sessions, r.Index, err
+		}},
+		{"health-checks-in-state", func(qo structs.QueryOptions) (any, uint64, error) {
+			var r structs.IndexedHealthChecks
+			err := health.ChecksInState(&structs.ChecksInStateRequest{Datacenter: dc, State: "critical", QueryOptions: qo}, &r)
+			return r.HealthChecks, r.Index, err
+		}},
 	}
 }
 
@@ -204,6 +214,13 @@ func VerifC06_BlockingEndpoints(st any) {
 	store := s.fsm.State()
 	if verifrt.Bool("virtual-ips-enabled") {
 		if err := store.SystemMetadataSet(1, &structs.SystemMetadataEntry{Key: structs.SystemMetadataVirtualIPsEnabled, Value: "true"}); err != nil {
+			panic(err)
+		}
+	}
+	// the node the sessions, checks and coordinates of the write family hang on exists from the start
+	// (bare: no services), so that one earlier write is enough to create a session or a check on it
+	if verifrt.Bool("n1-exists") {
+		if err := store.EnsureNode(5, &structs.Node{Node: "n1", Address: "10.0.0.1"}); err != nil {
 			panic(err)
 		}
 	}
